@@ -31,32 +31,32 @@ type LoopSpec struct {
 }
 
 type Contract struct {
-	PkgPath   string
-	Recv      string // receiver type name ("" for plain functions)
-	Name      string
-	RecvName  string
-	Params    []string
-	Results   []string
-	Props     []string
-	Mode      string // "int" | "bv"
-	Requires  []Clause
-	Ensures   []Clause
-	Assigns   []Clause
-	HasAssign bool
-	Loops     map[int]*LoopSpec
-	PanicsIf  *Clause
-	Decreases *Clause
-	DecrList  []Clause // lexicographic measure for recursive functions
-	Trusted   bool // assumed, never verified (external / interface)
-	NoVerify  bool
-	Panics    string // "checked" (default) | "off"
+	PkgPath    string
+	Recv       string // receiver type name ("" for plain functions)
+	Name       string
+	RecvName   string
+	Params     []string
+	Results    []string
+	Props      []string
+	Mode       string // "int" | "bv"
+	Requires   []Clause
+	Ensures    []Clause
+	Assigns    []Clause
+	HasAssign  bool
+	Loops      map[int]*LoopSpec
+	PanicsIf   *Clause
+	Decreases  *Clause
+	DecrList   []Clause // lexicographic measure for recursive functions
+	Trusted    bool     // assumed, never verified (external / interface)
+	NoVerify   bool
+	Panics     string // "checked" (default) | "off"
 	NoOverflow bool
-	Opts      map[string]string
-	File      string
-	Line      int
-	Covers    []Clause // cover: must be satisfiable at some return
-	Uses      []string // lemma names assumed at entry
-	Ghost     bool
+	Opts       map[string]string
+	File       string
+	Line       int
+	Covers     []Clause // cover: must be satisfiable at some return
+	Uses       []string // lemma names assumed at entry
+	Ghost      bool
 }
 
 func (c *Contract) Key() string {
